@@ -195,7 +195,7 @@ def universe(tier, seed, shard, nshards):
             psis = [None, 1, (0, 1, 0, 1), (1, 0, 1, 0), (0, 0, 0, c), (0, r, 0, 0), (1, 1, 0, 0), (1, 0, 0, 0), (0, 0, 1, 0)]
             for w in (None, 1, 2):
                 for pen in (None, 0.5):
-                    for ms in (None, 1.2):
+                    for ms in (None, univ.max_step2(seed)):
                         for inner in ('sq', 'eu'):
                             for psi in psis:
                                 if psi is not None:
@@ -245,7 +245,7 @@ def run(ctx):
              'warping_paths keep_int_repr, compact, distance_matrix); non-trivial = some threshold or the Euclidean bound lies below the '
              'accumulated optimum of an in-band cell (so pruning has something to cut)',
         bounds={'alphabet': list(univ.alphabet(univ.BASE3, ctx.seed)),
-                'U1': 'all pairs len 1..%d x window{None,1,2} x penalty{None,.5} x max_step{None,1.2} x inner x 9 psi forms (symmetric and one-sided, begin and end)' % (4 if ctx.thorough else 3),
+                'U1': 'all pairs len 1..%d x window{None,1,2} x penalty{None,.5} x max_step{None, 2|a| (separates squared from unsquared comparisons)} x inner x 9 psi forms (symmetric and one-sided, begin and end)' % (4 if ctx.thorough else 3),
                 'U3': 'all shapes up to %d x every window x 13 psi forms x catalogue values' % (6 if ctx.thorough else 5),
                 'thresholds': 'one in every gap (> 1e-6 relative) between consecutive distinct values of {cell optima, distance, Euclidean bound}, one below, one above',
                 'use_pruning': 'only where C03 calls the bound valid: no max_step, and no penalty or equal lengths; alone and combined with every second threshold as max_dist (judged only when the distance is below the threshold: above it the documentation lets use_pruning override max_dist)'},
